@@ -19,7 +19,8 @@ from vlib import harness
 ID = "C11"
 LEVEL = "exploration"
 TECHNIQUE = ("runtime monitor: generated kernel socket tables + fd links under the real net_connections(), "
-             "ground-truth set oracle with a documentation-transcribed kind table; encoder validated on the live kernel")
+             "ground-truth set oracle with a documentation-transcribed kind table; encoder validated on the live kernel; "
+             "three free-running threads over a static table must each get the sequential answer")
 RULE = ("one case = one socket table (0-14 sockets: TCP/UDP over IPv4/IPv6, UNIX stream/dgram/seqpacket) held by "
         "0-3 descriptors across 1-5 simulated processes (some with an unreadable fd directory); all 11 documented "
         "kinds are run system-wide and per process, plus 2 invalid kinds (must raise ValueError). "
@@ -428,11 +429,19 @@ def canon_addr(a, fam):
         return ("bad-addr", repr(a))
     if obj.version != (4 if fam == AF_INET else 6) or type(port) is not int:
         return ("bad-addr", repr(a))
+    if ip != socket.inet_ntop(fam, obj.packed):
+        # same address, but not spelled as the socket API (getsockname / inet_ntop) and the kernel's own tools spell it,
+        # e.g. '::ffff:7f00:1' for the IPv4-mapped '::ffff:127.0.0.1': the row would never compare equal to getpeername()
+        _NONCANON.append((ip, socket.inet_ntop(fam, obj.packed)))
     return (obj.packed.hex(), port)
+
+
+_NONCANON = []
 
 
 def canon_rows(result, with_pid):
     rows, bad = [], []
+    del _NONCANON[:]
     for c in result:
         try:
             fam, typ = int(c.family), int(c.type)
@@ -446,6 +455,8 @@ def canon_rows(result, with_pid):
             bad.append(f"{c!r}: {e!r}")
             continue
         rows.append(row)
+    for got, want in sorted(set(_NONCANON))[:3]:
+        bad.append(f"address text {got!r} is not the canonical spelling {want!r}")
     return rows, bad
 
 
@@ -713,7 +724,7 @@ def call_checked(fn, form, kind, with_pid, case, exp_fn, acc, viols):
         return
     rows, bad = canon_rows(res, with_pid)
     for b in bad:
-        viols.append(("malformed_row", f"{form} kind={kind!r}: {b}"))
+        viols.append(("address_text_not_canonical" if b.startswith("address text") else "malformed_row", f"{form} kind={kind!r}: {b}"))
     viols.extend(compare(case, kind, rows, exp_fn(), form, acc, env_ps()))
 
 
@@ -780,6 +791,72 @@ def run_case(case, acc):
     acc.count("sockets_generated", len(case["socks"]))
     acc.count("unreadable_processes", sum(1 for p in case["procs"] if not p["readable"]))
     acc.case(case, nontrivial(case), viols)
+
+
+# ------------------------------------------------------------------------------------------------
+# concurrent callers over a static table: every answer must be the sequential one
+# ------------------------------------------------------------------------------------------------
+
+def run_threads_case(case, acc):
+    import sys
+    import threading
+    env = setup()
+    ps, vkernel = env["ps"], env["vkernel"]
+    ps.PROCFS_PATH = "/vproc"
+    t = build_table(case, env)
+    vk = vkernel.VK()
+    vk.table = t
+    vk.mount("/vproc", t)
+    viols = []
+    readable = [p["pid"] for p in case["procs"] if p["readable"]]
+    jobs = [("system", k, None) for k in ("all", "inet", "tcp", "unix", "udp6", "tcp4")]
+    jobs += [("process", k, pid) for pid in readable[:3] for k in ("all", "inet", "unix")]
+
+    def call(job):
+        form, kind, pid = job
+        res = ps.net_connections(kind) if form == "system" else ps.Process(pid).net_connections(kind)
+        rows, _bad = canon_rows(res, form == "system")
+        return sorted(rows, key=repr)
+    errors = []
+    mismatches = []
+    old = sys.getswitchinterval()
+    with vk:
+        try:
+            base = {job: call(job) for job in jobs}
+        except Exception as e:  # noqa: BLE001
+            acc.case(case, False, [(f"exception:{type(e).__name__}", f"sequential baseline raised {e!r}")])
+            return
+        barrier = threading.Barrier(3)
+
+        def worker(i):
+            rng = harness.rng_for(case.get("seed", 0), "c11t", i)
+            try:
+                barrier.wait()
+                for _ in range(25):
+                    job = rng.choice(jobs)
+                    got = call(job)
+                    acc.count("concurrent_calls_compared")
+                    if got != base[job]:
+                        mismatches.append((job, got, base[job]))
+            except BaseException as e:  # noqa: BLE001
+                errors.append((i, e))
+        sys.setswitchinterval(1e-6)
+        try:
+            ths = [threading.Thread(target=worker, args=(i,), daemon=True) for i in range(3)]
+            for th in ths:
+                th.start()
+            for th in ths:
+                th.join(120)
+        finally:
+            sys.setswitchinterval(old)
+    for i, e in errors:
+        viols.append((f"concurrent_exception:{type(e).__name__}", f"thread {i}: {e!r}"))
+    for job, got, want in mismatches[:3]:
+        lost = [r for r in want if r not in got][:3]
+        extra = [r for r in got if r not in want][:3]
+        viols.append(("concurrent_result_differs_from_sequential", f"{job}: missing {lost} unexpected {extra} (static table, "
+                                                                  f"{len(mismatches)} of the concurrent calls differ)"))
+    acc.case(dict(case, threads=True), bool(jobs) and len(case["socks"]) >= 2, viols)
 
 
 # ------------------------------------------------------------------------------------------------
@@ -897,7 +974,7 @@ def run_live_case(case, acc):
             # unknown to the model (held by nobody here: the server side was never accept()ed) -> pid filter
             rows, bad = canon_rows([c for c in res if c.pid in mine and c.fd not in foreign], True)
             for b in bad:
-                viols.append(("malformed_row", f"live kind={kind!r}: {b}"))
+                viols.append(("address_text_not_canonical" if b.startswith("address text") else "malformed_row", f"live kind={kind!r}: {b}"))
             viols.extend(compare(model, kind, rows, expectation(model, kind, ps), "LIVE-KERNEL system", acc, ps))
             try:
                 res = ps.Process(me).net_connections(kind)
@@ -971,6 +1048,8 @@ def plan(tier, seed):
     for s, c in harness.split_range(n, 15 if tier == "quick" else 46):
         shards.append(dict(kind="gen", seed=seed, start=s, count=c))
     shards.append(dict(kind="live"))
+    for part in range(2 if tier == "quick" else 8):
+        shards.append(dict(kind="threads", seed=seed, part=part, count=40 if tier == "quick" else 600))
     return shards
 
 
@@ -991,7 +1070,15 @@ def run_shard(shard):
     elif shard["kind"] == "gen":
         for i in range(shard["start"], shard["start"] + shard["count"]):
             run_case(gen_case(harness.rng_for(shard["seed"], "c11", i)), acc)
+    elif shard["kind"] == "threads":
+        for i in range(shard["count"]):
+            case = gen_case(harness.rng_for(shard["seed"], "c11t", shard["part"], i))
+            case["seed"] = shard["seed"] * 100003 + shard["part"] * 1009 + i
+            run_threads_case(case, acc)
     elif shard["kind"] == "cases":
         for case in shard["cases"]:
-            run_case(case, acc)
+            if case.get("threads"):
+                run_threads_case(case, acc)
+            else:
+                run_case(case, acc)
     return acc.result()
